@@ -190,6 +190,19 @@ SPECIAL_STATE_PARAMS = {   # callers that thread an extra non-state parameter (c
 }
 
 
+FUNDAMENTAL = {'int', 'unsigned int', 'long', 'unsigned long', 'short', 'unsigned short', 'char', 'signed char', 'unsigned char', 'bool', 'long long', 'unsigned long long',
+               'float', 'double', 'long double', 'wchar_t', 'char16_t', 'char32_t'}
+
+
+def scalar_states(fn):
+    """a state rule / action instantiated with states of fundamental type (int, ...): the executor keeps such values as numbers, not as objects with an
+    identity, so who receives them cannot be traced; these instantiations (they occur in the repository's tests only) are counted but not judged"""
+    tn, ca = class_targs(fn)
+    if tn not in STATE_RULES and tn not in ACTION_CLASSES: return False
+    ts = [t.replace('const ', '').replace('&', '').strip() for t in types_of(ca or [])]
+    return any(t in FUNDAMENTAL for t in ts)
+
+
 def check_fn(db, fn, never_false=frozenset()):
     """returns (problems [(rule, msg)], number of boundary calls seen, rows)"""
     out, nstates = paths(db, fn, never_false)
@@ -197,6 +210,8 @@ def check_fn(db, fn, never_false=frozenset()):
     tn, ca = class_targs(fn)
     probs = []; ncalls = 0
     kind = STATE_RULES.get(tn)
+    if scalar_states(fn):
+        return [], sum(1 for (evs, ek, v) in out for e in evs if isinstance(e, tuple) and e[0] == 'call'), len(out)
     released = set(e[1] for (evs, ek, v) in out for e in evs if isinstance(e, tuple) and e[0] == 'release')
     for (evs, exit_kind, val), n in out.items():
         calls = [e for e in evs if isinstance(e, tuple) and e[0] == 'call']
